@@ -24,7 +24,7 @@ META = dict(
          "consumer holds exactly its prologue plus forwarded headers. Four defects found by the oracle and fixed in /repo (cap off by one, stale codec info, headers withheld from waiting "
          "subscribers, GOPs replayed under a new sequence header).",
     design_ref="§7 C02",
-    note="Scope: RTMP / HTTP-FLV / WS-FLV consumers. TS and RTSP start-up are not modelled here. The two message-level statements (key frame first, header in force) are enforced by the "
+    note="New: cached_gops_start_with_key_frame (every cached GOP of both caches begins with a key frame, all reachable states) and ts_gop_cache_is_queue (the HTTP-TS GOP cache is the queue of the last GOPs after any history of frames and Clear). Scope: RTMP / HTTP-FLV / WS-FLV consumers. TS and RTSP start-up are not modelled here. The two message-level statements (key frame first, header in force) are enforced by the "
          "oracle + correspondence only.",
     technique="Lean 4 refinement (ring buffer to queue) + invariants over event lists + L1 differential correspondence",
 )
